@@ -179,7 +179,9 @@ def run(tier):
                         if isinstance(x, list):
                             return [shape(v) for v in x]
                         return x
-                    if (ref['k'], shape(ref.get('v'))) != (got['k'], shape(got.get('v'))) or got.get('nav'):
+                    navs = [nv for nv in (got.get('nav') or [])
+                            if not (nv.startswith('LAZY-PARENT') and ck.known('KF-C07-2', f"{c['ebnf'].strip()} on {text!r} [{how}]: {nv}"))]
+                    if (ref['k'], shape(ref.get('v'))) != (got['k'], shape(got.get('v'))) or navs:
                         ck.violation({'kind': 'parse', 'inputs': {'grammar': c['ebnf'], 'text': text, 'how': how, 'label': c['label']},
                                       'expected': {'the tree built with synthesized classes (asmodel=True)': ref}, 'observed': got,
                                       'why': f'the {how} route does not give the same tree as synthesized classes', 'spec': 'PegSem!MkNode (ObjModel): one tree whatever the route'},
@@ -213,6 +215,8 @@ def run(tier):
                     if mirror(strip_nodes(got['v']), o['plain']['v']):
                         bad(f"attributes differ from the plain AST: {strip_nodes(got['v'])!r} vs {o['plain']['v']!r}", o['plain']['v'])
                 for nav in (got.get('nav') or []) if c['label'] != 'method-names' else []:
+                    if nav.startswith('LAZY-PARENT') and ck.known('KF-C07-2', f"{c['ebnf'].strip()} on {text!r} [{how}]: {nav}"):
+                        continue
                     bad('navigation: ' + nav, 'children/parent/walkers cover exactly the nodes stored in attributes')
             if t == 30:
                 ck.sample({'grammar': c['ebnf'], 'text': text, 'spec': so, 'impl': {k: o[k] for k in ('plain', 'asmodel')}})
